@@ -320,6 +320,23 @@ func Match(key, value string) (ok, known bool) {
 
 // ClassOf returns the plain class term declared for a field key, or "" when the key has a Shape
 // (use Match for those) or no declaration.
+// Weakness says how far the declaration of a field key can be relied on: "" = the validators /
+// generator are believed to guarantee it; otherwise "known:<finding>", "suspect" or "doubtful".
+func Weakness(key string) string {
+	if f, ok := KnownWeak[key]; ok {
+		return "known:" + f
+	}
+	if _, ok := Suspect[key]; ok {
+		return "suspect"
+	}
+	for _, d := range Doubtful {
+		if d == key {
+			return "doubtful"
+		}
+	}
+	return ""
+}
+
 func ClassOf(key string) string {
 	if _, ok := Shape[key]; ok {
 		return ""
@@ -382,7 +399,7 @@ var FieldClass = map[string]string{
 	// ------------------------------------------------------------------ version1 (Ingress)
 	"version1.Ingress.Name":                        word,                                           // metadata.name (ING generateNginxCfg); also printed inside "..."
 	"version1.Ingress.Namespace":                   word,                                           // metadata.namespace
-	"version1.IngressNginxConfig.Keepalive":        cint,                                           // fmt.Sprint(cfgParams.Keepalive) when > 0, else "" (guarded by if)
+	"version1.IngressNginxConfig.Keepalive":        "CWord",                                         // fmt.Sprint(cfgParams.Keepalive) when > 0, else "" (guarded by if)
 	"version1.IngressNginxConfig.StaticSSLPath":    word,                                           // constant /etc/nginx/secrets; only an argument of makeSecretPath
 	"version1.Server.SSLCertificate":               word,                                           // secret file path /etc/nginx/secrets/<ns>-<name> (configurator)
 	"version1.Server.SSLCertificateKey":            word,                                           // same value
@@ -700,6 +717,7 @@ var Doubtful = []string{
 	"version2.Location.ClientMaxBodySize", "version2.Location.ProxyBufferSize", "version2.LimitReqZone.ZoneSize",
 	"version2.SessionCookie.Expires", "version2.JWTAuth.KeyCache", "version2.Location.ProxyNextUpstream",
 	"version2.Upstream.LBMethod", "version2.StreamUpstream.LoadBalancingMethod",
+	"version1.Location.ProxyBuffers", "version2.Location.ProxyBuffers", // ParseProxyBuffersSpec / validateSize trim, the raw value is stored
 	// with nginx.org/path-regex the path is only an escaped string (fine inside the quotes the helper adds)
 	"version1.Location.Path",
 }
